@@ -18,10 +18,19 @@ import (
 
 // If the target program panics, the interpreter panics with this type.
 type targetPanic struct {
-	v value
+	v   value
+	msg string
 }
 
 func (p targetPanic) String() string {
+	if p.msg != "" {
+		return p.msg
+	}
+	if it, ok := p.v.(iface); ok {
+		if s, ok := it.v.(string); ok {
+			return s
+		}
+	}
 	return toString(p.v)
 }
 
@@ -1109,7 +1118,7 @@ func callBuiltin(caller *frame, callpos token.Pos, fn *ssa.Builtin, args []value
 	case "panic":
 		// ssa.Panic handles most cases; this is only for "go
 		// panic" or "defer panic".
-		panic(targetPanic{args[0]})
+		panic(targetPanic{v: args[0]})
 
 	case "recover":
 		return doRecover(caller)
